@@ -453,6 +453,32 @@ func buildOnce(spec Spec, fillerSectors int) ([]byte, Info, int, error) {
 	for _, l := range miniLens {
 		nMini += l
 	}
+	// unallocated mini sectors inside the mini stream (Spec.MiniFree)
+	if spec.MiniFree != "" {
+		if nMini == 0 || spec.MiniHole < 1 || spec.Mini != MiniNatural {
+			return nil, info, 0, errors.New("free mini sectors need a natural mini stream with at least one used mini sector and a hole of at least one")
+		}
+		before, midAt, mid, after := 0, nMini/2, 0, 0
+		switch spec.MiniFree {
+		case FreeStart:
+			before = spec.MiniHole
+		case FreeMiddle:
+			mid = spec.MiniHole
+		case FreeTrailing:
+			after = spec.MiniHole
+		default:
+			return nil, info, 0, fmt.Errorf("unknown free mini sector pattern %q", spec.MiniFree)
+		}
+		for _, ch := range miniPos {
+			for k, q := range ch {
+				if q >= midAt {
+					q += mid
+				}
+				ch[k] = before + q
+			}
+		}
+		nMini += before + mid + after
+	}
 	info.MiniSectors = nMini
 	miniFat := make([]uint32, ceilDiv(nMini, epf)*epf)
 	for i := range miniFat {
